@@ -89,7 +89,8 @@ CLAIMED["C07"] = {
     "text": "Model of the IVOA ASCII codec (lexer, validation loop, sort + overlap check, per-depth buckets of the writer) and of the FITS range payload. Theorems: reading what the writer emits returns "
             "the declared depth and the canonical MOC covering exactly the elements, for EVERY list of in-domain non-overlapping elements in any order, every dmax (empty MOC and unoccupied deepest "
             "level included), every quantity and index width; END TO END (ascii_roundtrip_moc): for every valid MOC M of depth d the reader applied to the writer's tokens for the cell-range view of M "
-            "returns exactly (d, M); big-endian words and (start,end) row pairing are inverted exactly; padded data units are whole 2880-byte blocks; NUNIQ code round trip. "
+            "returns exactly (d, M), and the same for the JSON document (json_roundtrip_moc: the JSON token stream is the ASCII one restricted to single cells; the real JSON text is "
+            "reduced to that token stream by dropping quotes / braces / brackets and mapping ':' to '/' and ',' to ' '); big-endian words and (start,end) row pairing are inverted exactly; padded data units are whole 2880-byte blocks; NUNIQ code round trip. "
             "Tied to the code by three correspondences on real bytes (writer text = model text, reader = model reader, FITS data unit = model bytes). Partial: fold widths, offset notation, streaming "
             "ASCII, JSON, FITS header cards, NUNIQ files and lazy writers are checked by direct round trips on real bytes (test level), not modelled.",
     "design_ref": "DESIGN.md §4 C07, §10",
@@ -100,8 +101,10 @@ CLAIMED["C11"] = {
     "text": "Word-level model of the FITS version-2 space-time payload (MSB-flagged time rows followed by space rows; reader = one pass splitting on the alternation, transliterated from "
             "RangeMoc2DIterFromFits::next). Theorem fits_st_roundtrip: for EVERY list of elements with non-empty time and space parts (any number of elements and ranges, time bounds up to the "
             "highest usable bits) decoding the encoded rows returns exactly the elements; row count = total number of ranges; the empty MOC; a proved counterexample shows the non-empty-space "
-            "hypothesis is necessary. Tied to the code both ways on real files (writer rows = model rows, reader = model reader) plus idempotence of re-serialisation. Partial: ASCII and JSON "
-            "ST syntaxes, headers and depth keywords are checked by direct round trips on real bytes (test level), not modelled; u64 only.",
+            "hypothesis is necessary. ASCII: model of the 't.. s..' document (split on the two prefixes, 1-D reader per part, maximum of the depths, depth-only last element) and theorem "
+            "st_ascii_roundtrip: for every list of elements with valid non-empty parts the reader applied to the writer's document returns (d1, d2, elements) — resting on the 1-D end-to-end "
+            "theorem of C07. Tied to the code both ways on real files and real text (writer rows / text = model, reader = model reader) plus idempotence of re-serialisation. Partial: the JSON "
+            "ST syntax, FITS headers and depth keywords are checked by direct round trips on real bytes (test level), not modelled; u64 only.",
     "design_ref": "DESIGN.md §4 C11, §10",
     "note": TB + "; bit test modelled arithmetically; ASCII/JSON ST syntaxes tested not proved",
     "technique": "Lean 4 proof (row codec round trip by induction over elements) + differential correspondence on real FITS files + direct round-trip checks for ASCII/JSON",
